@@ -203,6 +203,9 @@ class Ctx:
             v = z3.Int(path)
         elif t == 'bool':
             v = z3.Bool(path)
+        elif t.startswith('(') and t.endswith(')') and ',' in t:
+            comps = _split_top(ty.strip()[1:-1])
+            v = ('tuple', [self._leaf('%s.%d' % (path, k), c) for k, c in enumerate(comps)])
         else:
             v = Obj(path)
         self.memo[path] = v
@@ -274,6 +277,30 @@ def decode_template(lit):
 # ------------------------------------------------------------------------------------------------------------
 # Interpreter
 # ------------------------------------------------------------------------------------------------------------
+
+
+_CALL = re.compile(r'^(_\d+|\(.*?\)) = (.*) -> \[return: (bb\d+)(?:, unwind[^\]]*)?\]$', re.S)
+
+
+def split_call(st):
+    """`dest = callee(args) -> [return: bbN, ...]` -> (dest, callee, args_text, bbN) or None. The argument list is the last
+    balanced parenthesis group, so generic arguments such as `::<(usize, usize), ..>` stay in the callee."""
+    m = _CALL.match(st)
+    if not m:
+        return None
+    body = m.group(2).rstrip()
+    if not body.endswith(')'):
+        return None
+    d = 0
+    for k in range(len(body) - 1, -1, -1):
+        if body[k] == ')':
+            d += 1
+        elif body[k] == '(':
+            d -= 1
+            if d == 0:
+                return m.group(1), body[:k], body[k + 1:-1], m.group(3)
+    return None
+
 
 class Path:
     def __init__(self, pc, result, calls):
@@ -521,12 +548,12 @@ class Interp:
                         paths.append(Path(pc + [z3.Not(cond)], ('panic', st[:120]), calls))
                     work.append((m.group(3), env, pc + [cond], calls))
                     break
-                m = re.match(r'^(_\d+|\(.*\)) = (.*?)\((.*)\) -> \[return: (bb\d+)(?:, unwind[^\]]*)?\]$', st, re.S)
-                if m and not m.group(2).startswith(('discriminant', 'PtrMetadata', 'SubWithOverflow', 'AddWithOverflow', 'Lt', 'Le', 'Gt', 'Ge', 'Eq', 'Ne', 'Not')):
-                    for (npc, val) in self.call(m.group(2), _split_top(m.group(3)), env, pc, calls):
+                sc = split_call(st)
+                if sc:
+                    for (npc, val) in self.call(sc[1], _split_top(sc[2]), env, pc, calls):
                         e2 = dict(env)
-                        self.assign(m.group(1), val, e2)
-                        work.append((m.group(4), e2, npc, list(calls)))
+                        self.assign(sc[0], val, e2)
+                        work.append((sc[3], e2, npc, list(calls)))
                     break
                 m = re.match(r'^(_\d+|\(.*?\)) = (.*)$', st, re.S)
                 if m:
@@ -614,3 +641,80 @@ def layouts():
                     names.append(mm.group(1))
             enums[m.group(1)] = names
     return structs, enums
+
+
+# ------------------------------------------------------------------------------------------------------------
+# Light CFG explorer: event order along every non-unwinding path, with discriminant switches as z3 constraints
+# ------------------------------------------------------------------------------------------------------------
+
+def cfg_paths(fn, max_paths=20000):
+    """Enumerates the non-cleanup paths of a loop-free MIR body.
+    Returns [(pc, events)] where events = [(block, callee, args_text, dest)] in execution order and pc is a list of z3
+    constraints over Int('disc:<place text>') (switches on discriminants), Bool/Int('sw:<bb>') (other switches)."""
+    out = []
+    work = [('bb0', {}, [], [], frozenset())]
+    while work:
+        bb, env, pc, ev, seen = work.pop()
+        if bb in seen:
+            raise Unsupported('loop in CFG of %s at %s' % (fn.name, bb))
+        seen = seen | {bb}
+        if len(out) + len(work) > max_paths:
+            raise Unsupported('path explosion in CFG of ' + fn.name)
+        env = dict(env)
+        ev = list(ev)
+        for st in fn.blocks[bb]:
+            st = st.rstrip(';')
+            if st == 'return':
+                out.append((pc, ev))
+                break
+            if st in ('unreachable', 'resume') or st.startswith('unwind'):
+                break
+            m = re.match(r'^goto -> (bb\d+)$', st)
+            if m:
+                work.append((m.group(1), env, pc, ev, seen)); break
+            m = re.match(r'^drop\(.*\) -> \[return: (bb\d+)', st)
+            if m:
+                work.append((m.group(1), env, pc, ev, seen)); break
+            m = re.match(r'^assert\(.*\) -> \[success: (bb\d+)', st, re.S)
+            if m:
+                work.append((m.group(1), env, pc, ev, seen)); break
+            m = re.match(r'^switchInt\((?:move |copy )?(.*)\) -> \[(.*)\]$', st)
+            if m:
+                v = env.get(m.group(1))
+                arms = [(int(c), t) for c, t in re.findall(r'(-?\d+): (bb\d+)', m.group(2))]
+                other = re.search(r'otherwise: (bb\d+)', m.group(2)).group(1)
+                if isinstance(v, int):
+                    tgt = dict(arms).get(v, other)
+                    work.append((tgt, env, pc, ev, seen)); break
+                if isinstance(v, tuple) and v[0] == 'disc':
+                    var = z3.Int('disc:' + v[1])
+                else:
+                    var = z3.Int('sw:%s:%s' % (bb, m.group(1)))
+                neg = []
+                for c, t in arms:
+                    work.append((t, env, pc + [var == c], ev, seen)); neg.append(var != c)
+                work.append((other, env, pc + neg, ev, seen))
+                break
+            sc = split_call(st)
+            if sc:
+                ev.append((bb, sc[1], sc[2], sc[0]))
+                env.pop(sc[0], None)
+                work.append((sc[3], env, pc, ev, seen)); break
+            m = re.match(r'^(_\d+) = const (true|false)$', st)
+            if m:
+                env[m.group(1)] = 1 if m.group(2) == 'true' else 0; continue
+            m = re.match(r'^(_\d+) = discriminant\((.*)\)$', st)
+            if m:
+                env[m.group(1)] = ('disc', m.group(2)); continue
+            m = re.match(r'^(_\d+) = (?:move |copy )(_\d+)$', st)
+            if m:
+                if m.group(2) in env:
+                    env[m.group(1)] = env[m.group(2)]
+                else:
+                    env.pop(m.group(1), None)
+                continue
+            m = re.match(r'^(_\d+) = ', st)
+            if m:
+                env.pop(m.group(1), None)
+                ev.append((bb, '=', st, m.group(1)))
+    return out
